@@ -1,4 +1,4 @@
-// F21: PBM (P4): reader swaps nibbles instead of mirroring bits; writer allocates width/8 (rounded down) bytes per row
+// F13e: PBM (P4): reader swaps nibbles instead of mirroring bits; writer allocates width/8 (rounded down) bytes per row
 #include <boost/gil.hpp>
 #include <boost/gil/extension/io/pnm.hpp>
 #include <sstream>
